@@ -216,6 +216,17 @@ pub trait Sut {
     fn processor_free(&self) -> bool;
     /// clear() issued from inside a yield hook (must not install a hook of its own)
     fn clear_nested(&self, pre: usize) -> (Result<(), String>, Vec<StepObs>);
+    /// sync flavour: clear() on a helper thread while the processor stays idle for `ms` of real
+    /// time after the signal was queued; `.2` tells whether the call had returned by then
+    fn clear_patient(&self, _pre: usize, _ms: u64) -> Option<(Result<(), String>, Vec<StepObs>, bool)> {
+        None
+    }
+    /// the next wait() lets the processor idle for `ms` of real time after the marker was queued
+    fn set_wait_patience(&self, _ms: u64) {}
+}
+
+thread_local! {
+    static WAIT_PATIENCE_MS: std::cell::Cell<u64> = const { std::cell::Cell::new(0) };
 }
 
 // ------------------------------------------------------------------------------------------
@@ -418,9 +429,56 @@ where
         let v = steps.borrow().clone();
         (r, v)
     }
+    fn clear_patient(&self, pre: usize, ms: u64) -> Option<(Result<(), String>, Vec<StepObs>, bool)> {
+        let mut steps = Vec::new();
+        let mut early = false;
+        let res = std::thread::scope(|s| {
+            let cache = &self.cache;
+            let h = s.spawn(move || es(cache.clear()));
+            let mut spins = 0u64;
+            while !h.is_finished() && self.pending().1 == 0 {
+                spins += 1;
+                if spins > 50_000_000 {
+                    panic!("HARNESS clear(): helper neither queued its signal nor returned");
+                }
+                std::thread::yield_now();
+            }
+            if !h.is_finished() {
+                // the processor is busy elsewhere for a while: clear() has to keep waiting
+                std::thread::sleep(Duration::from_millis(ms));
+                early = h.is_finished() && self.pending().1 > 0;
+            }
+            for _ in 0..pre {
+                match self.do_step(StepKind::Insert) {
+                    Some(st) => steps.push(st),
+                    None => break,
+                }
+            }
+            let mut idle = 0u64;
+            loop {
+                while let Some(st) = self.do_step(StepKind::Clear) {
+                    steps.push(st);
+                }
+                if h.is_finished() {
+                    break;
+                }
+                idle += 1;
+                if idle > 20_000_000 {
+                    panic!("HANG clear(): signal handled, caller still blocked");
+                }
+                std::thread::yield_now();
+            }
+            h.join().unwrap()
+        });
+        Some((res, steps, early))
+    }
+    fn set_wait_patience(&self, ms: u64) {
+        WAIT_PATIENCE_MS.with(|c| c.set(ms));
+    }
     fn wait(&self) -> (Result<(), String>, Vec<StepObs>) {
         let before = self.pending().0;
         let mut steps = Vec::new();
+        let patience = WAIT_PATIENCE_MS.with(|c| c.replace(0));
         let res = std::thread::scope(|s| {
             let cache = &self.cache;
             let h = s.spawn(move || es(cache.wait()));
@@ -438,6 +496,11 @@ where
                     panic!("HARNESS wait(): helper neither queued nor returned");
                 }
                 std::thread::yield_now();
+            }
+            if patience > 0 && !h.is_finished() {
+                // the processor is busy elsewhere for a while: wait() has to keep waiting (if it
+                // gives up, the caller sees Ok with its marker - and what precedes it - unapplied)
+                std::thread::sleep(Duration::from_millis(patience));
             }
             let mut idle = 0u64;
             while !h.is_finished() {
